@@ -199,6 +199,44 @@ def inspectVerdict (spellings : List Bytes) (accepted : Bool) : String :=
     (if !ds.Nodup || !spellings.all spellingInScope then "ok"
      else "bad:distinct-rejected:distinct sites were rejected as duplicates")
 
+/-! ## reading the `tls` directives of a site block (spec level)
+
+A site block may carry several `tls` directives (written one after the other, or spliced in from an imported snippet).
+What the property text calls "its tls directive is off / manual / self-signed" is then read WITHOUT regard to order:
+the site is off as soon as a directive says `off` (what is written after it does not count any more), it is manual as soon as
+ANY directive that counts names a certificate (`tls cert key`, `tls { load dir }`), self-signed as soon as any says
+`self_signed`; `no_redirect` and on-demand TLS likewise.  The e-mail is the last one written. -/
+
+/-- the directives that count: up to and including the first `tls off` -/
+def tlsRead : List TLSVariant → List TLSVariant
+  | [] => []
+  | v :: vs => if v.base == .off then [v] else v :: tlsRead vs
+
+def tlsIsOff (v : TLSVariant) : Bool := v.base == .off
+/-- a directive that really configures TLS (`none` stands for "no directive written") -/
+def tlsActive (v : TLSVariant) : Bool := v.base != .none && v.base != .off
+/-- the directive names the user's own certificate(s) -/
+def tlsNamesCertificate (v : TLSVariant) : Bool := v.base == .manual || v.base == .load
+def tlsSelfSigned (v : TLSVariant) : Bool := v.base == .selfSigned
+/-- the single argument of the directive, which is stored as the ACME e-mail -/
+def tlsEmailArg (v : TLSVariant) : Option Bytes :=
+  match v.base with
+  | .off => some b!"off"
+  | .email => some testEmail
+  | .selfSigned => some b!"self_signed"
+  | _ => none
+
+/-- the flags of a declared site as the spec reads them from the list of its `tls` directives -/
+def readTLS (vs : List TLSVariant) (c : Site) : Site :=
+  let r := tlsRead vs
+  { c with
+    enabled := if r.any tlsIsOff then false else if r.any tlsActive then true else c.enabled
+    email := r.foldl (fun e v => (tlsEmailArg v).getD e) c.email
+    manual := c.manual || r.any tlsNamesCertificate
+    selfSigned := c.selfSigned || r.any tlsSelfSigned
+    noRedirect := c.noRedirect || r.any (fun v => tlsActive v && v.noRedirect)
+    onDemand := c.onDemand || r.any (fun v => tlsActive v && v.onDemand) }
+
 /-! ## the site-set property -/
 
 /-- what the judge knows about a declared site: from the INPUT the address text, bind and tls variant;
